@@ -346,9 +346,13 @@ def actor_case(res: Result, spec, idx):
     # a child spawns a grandchild under a GENERATED id (spawn_<service>) and relays to it by service key
     relay = {"SPAWNG": {"actions": [{"type": "spawn_gkid"}]},
              "PINGG": {"actions": [{"type": "xstate.sendTo", "params": {"to": "gkid", "event": "PING"}}]}}
+    # (FIN ends the child: a finished child that nobody stopped is still the parent's child and still
+    #  in the system registry - in the uninterrupted run and in a restored one alike)
+    relay["FIN"] = "z"
     kid_cfg = {"id": "kid", "initial": "a", "context": {"c": 0}, "on": relay, "states": {
         "a": {"on": {"PING": {"target": "b", "actions": ["bump"]}}},
-        "b": {"on": {"PING": {"target": "a", "actions": ["bump"]}}}}}
+        "b": {"on": {"PING": {"target": "a", "actions": ["bump"]}}},
+        "z": {"type": "final"}}}
     kid = create_machine(kid_cfg, logic=MachineLogic(actions={"bump": bump}, services={"gkid": gkid}))
 
     def sc(src, **p):
@@ -366,6 +370,11 @@ def actor_case(res: Result, spec, idx):
             "STOP1": {"actions": [{"type": "xstate.stopChild", "params": {"id": "k1"}}]},
             "K1SPAWNG": {"actions": [st_("k1", "SPAWNG")]},
             "K1PINGG": {"actions": [st_("k1", "PINGG")]},
+            "FIN1": {"actions": [st_("k1", "FIN")]},
+            # a child spawned in BLOCKING mode: started inline, watched by no thread
+            "SPAWN3": {"actions": [{"type": "spawn_blocking_kid", "params": {"id": "k3", "systemId": "sys3"}}]},
+            "PING3": {"actions": [st_("sys3", "PING")]},
+            "FIN3": {"actions": [st_("k3", "FIN")]},
             "GO": "busy"}},
         "busy": {"on": {"BACK": "idle", "PING2": {"actions": [st_("k2", "PING")]}}}}}
     machine = create_machine(parent_cfg, logic=MachineLogic(services={"kid": kid}))
@@ -376,11 +385,15 @@ def actor_case(res: Result, spec, idx):
         if "k1" not in have:
             opts += ["SPAWN1", "SPAWN1"]
         else:
-            opts += ["STOP1", "K1PINGG", "K1PINGG"]
+            opts += ["STOP1", "K1PINGG", "K1PINGG", "FIN1"]
             if "g" not in have:
                 opts += ["K1SPAWNG", "K1SPAWNG"]
         if "k2" not in have:
             opts += ["SPAWN2"]
+        if "k3" not in have:
+            opts += ["SPAWN3"]
+        else:
+            opts += ["PING3", "FIN3"]
         e = rng.choice(opts)
         script.append(e)
         if where == "idle":
@@ -388,6 +401,8 @@ def actor_case(res: Result, spec, idx):
                 have.add("k1")
             elif e == "SPAWN2":
                 have.add("k2")
+            elif e == "SPAWN3":
+                have.add("k3")
             elif e == "STOP1":
                 have.discard("k1")
                 have.discard("g")
@@ -401,24 +416,34 @@ def actor_case(res: Result, spec, idx):
     unsettled = []
 
     def settle_sync(it):
+        """Waits until the interpreter tree is at rest.  A child is at rest when it is idle (not
+        processing, empty queue) and either running in a non-final configuration, or finished with no
+        actor thread of its name left: a finished child that HAS one is about to be stopped and
+        dropped by it (the thread polls), one that has none stays as it is."""
         t0 = time.time()
         while time.time() - t0 < 6.0:
-            kids, ids = [], set()
+            pairs = []
 
             def walk(x):
                 for aid, a in list((getattr(x, "_actors", {}) or {}).items()):
-                    kids.append(a)
-                    ids.add(aid)
+                    pairs.append((aid, a))
                     walk(a)
             walk(it)
-            zombies = [t for t in observe.engine_threads() if t.name.startswith("actor-")
-                       and t.name[6:] not in ids]
-            if not zombies and all(
-                    a.status != "uninitialized" and not getattr(a, "_is_processing", False)
-                    # (start() sets status before it raises the processing flag and enters the
-                    #  initial states: a running child without a configuration is still starting)
-                    and (a.status != "running" or len(getattr(a, "_active_state_nodes", ())) > 0)
-                    and not len(getattr(a, "_event_queue", ())) for a in kids):
+            ids = {aid for aid, _ in pairs}
+            names = {t.name[6:] for t in observe.engine_threads() if t.name.startswith("actor-")}
+
+            def at_rest(aid, a):
+                if a.status == "uninitialized" or getattr(a, "_is_processing", False) \
+                        or len(getattr(a, "_event_queue", ())):
+                    return False
+                finished = a.status != "running" or any(
+                    n.is_final and n.parent is a.machine for n in a._active_state_nodes)
+                if finished:
+                    return aid not in names
+                # (start() sets status before it raises the processing flag and enters the initial
+                #  states: a running child without a configuration is still starting)
+                return len(getattr(a, "_active_state_nodes", ())) > 0
+            if not (names - ids) and all(at_rest(aid, a) for aid, a in pairs):
                 return
             time.sleep(0.002)
         unsettled.append(1)      # a loaded machine: this script is not judged
